@@ -186,7 +186,7 @@ func streamScenario(s spec) *engine.Scenario {
 }
 
 func check(s spec, o *obsT, x *vrt.Exec) (string, bool, []*engine.Finding) {
-	fs := hk.Generic(x, hk.Opts{Leaks: true, Races: true})
+	fs := hk.Generic(x, hk.Opts{Leaks: true})
 	add := func(sig, format string, a ...any) {
 		fs = append(fs, &engine.Finding{Sig: sig, Msg: fmt.Sprintf(format, a...)})
 	}
